@@ -276,6 +276,16 @@ class SeqEngine(object):
                     from . import hooks as H
                     H.wrap_readonly(self, i, op)
                     continue
+                if name == "scribble":
+                    # the CALLER rewrites, in place, a file it stored from earlier: nothing in the store may
+                    # change (an object must not share storage with what the caller handed over)
+                    w.scribble(op["c"], True)
+                    try:
+                        res.flags.add("caller-rewrote-its-file")
+                        self.check_state(None, None, i)
+                    finally:
+                        w.scribble(op["c"], False)
+                    continue
                 if name == "restart":
                     try:
                         w.open_store()
